@@ -39,10 +39,16 @@ def callee_name(c: ast.Call) -> Optional[str]:
 class Facts:
     """Facts (branch/assert conditions) holding at an expression, with alias-robust subject terms."""
 
-    def __init__(self, fa: FuncAnalysis, at_expr: ast.AST):
+    def __init__(self, fa: FuncAnalysis, at_expr: ast.AST, expand: bool = True):
         self.fa = fa
         self.at = at_expr
-        self.atoms: List[Tuple[ast.AST, bool]] = fa.cfg.expr_facts(at_expr)
+        raw = fa.cfg.expr_facts(at_expr)
+        atoms: List[Tuple[ast.AST, bool]] = []
+        for a, pol in raw:
+            atoms.append(norm_atom(a, pol))
+        if expand:
+            atoms = expand_atoms(fa, atoms)
+        self.atoms = atoms
 
     def _term(self, e: ast.AST) -> Term:
         try:
@@ -54,7 +60,6 @@ class Facts:
         """isinstance(subject, C) / type(subject) is C holds for some C in classes (dotted, e.g. 'ast.Constant')."""
         subject = strip_sites(subject)
         for fx, pol in self.atoms:
-            fx, pol = norm_atom(fx, pol)
             got = match_isinstance(fx)
             if got is None:
                 continue
@@ -135,6 +140,165 @@ def norm_atom(fx: ast.AST, pol: bool) -> Tuple[ast.AST, bool]:
     return fx, pol
 
 
+def clone_ast(n):
+    """structural copy over _fields only (never follows the _parent back-pointers)."""
+    if isinstance(n, ast.AST):
+        new = n.__class__()
+        for f in n._fields:
+            if hasattr(n, f):
+                setattr(new, f, clone_ast(getattr(n, f)))
+        for a in ("lineno", "col_offset", "end_lineno", "end_col_offset"):
+            if hasattr(n, a):
+                setattr(new, a, getattr(n, a))
+        return new
+    if isinstance(n, list):
+        return [clone_ast(x) for x in n]
+    return n
+
+
+class _Subst(ast.NodeTransformer):
+    def __init__(self, mapping):
+        self.mapping = mapping
+
+    def visit_Name(self, node):
+        if isinstance(node.ctx, ast.Load) and node.id in self.mapping:
+            import copy as _copy
+
+            new = self.mapping[node.id]
+            return new
+        return node
+
+
+def _predicate_body(fi: FuncInfo) -> Optional[List[Tuple[List[Tuple[ast.AST, bool]], ast.AST]]]:
+    """For a small predicate function: list of (path conditions, returned expression) - straight-line
+    if/return structure only (no loops, no assignments other than to fresh locals that are not used in tests)."""
+    out = []
+
+    def walk(stmts, conds):
+        for i, s in enumerate(stmts):
+            if isinstance(s, ast.Expr) and isinstance(s.value, ast.Constant):
+                continue  # docstring
+            if isinstance(s, ast.Return):
+                out.append((list(conds), s.value if s.value is not None else ast.Constant(value=None)))
+                return True
+            if isinstance(s, ast.If):
+                from .cfg import facts_false, facts_true
+
+                t_done = walk(s.body, conds + facts_true(s.test))
+                e_done = walk(s.orelse, conds + facts_false(s.test)) if s.orelse else False
+                rest = stmts[i + 1:]
+                if t_done and e_done:
+                    return True
+                if t_done:
+                    return walk(rest, conds + facts_false(s.test)) if not s.orelse else False
+                if e_done:
+                    return walk(rest, conds + facts_true(s.test))
+                return None
+            return None  # anything else: not a simple predicate
+        return False
+
+    r = walk(list(fi.node.body), [])
+    if r is None or not out:
+        return None
+    return out
+
+
+def expand_atoms(fa: FuncAnalysis, atoms: List[Tuple[ast.AST, bool]], depth: int = 2) -> List[Tuple[ast.AST, bool]]:
+    """Add the facts implied by calls of small package predicate helpers and by boolean flag variables:
+    `helper(x)` True  ->  conditions under which helper returns a truthy value, with parameters replaced by
+    the argument expressions (only when helper has one truthy-returning path or the fact is False and it has
+    one falsy-returning path... conservatively: single `return <expr>` bodies, and if/return chains)."""
+    from .cfg import facts_false, facts_true
+
+    m = fa.model
+    out = list(atoms)
+    seen = set()
+    work = list(atoms)
+    while work and depth >= 0:
+        nxt = []
+        for a, pol in work:
+            key = (ast.dump(a), pol)
+            if key in seen:
+                continue
+            seen.add(key)
+            # boolean flag variable with a single definition in this function
+            if isinstance(a, ast.Name) and a.id in fa.locals:
+                defs = [n for n in _own(fa.fi) if isinstance(n, ast.Assign) and len(n.targets) == 1 and isinstance(n.targets[0], ast.Name) and n.targets[0].id == a.id]
+                if len(defs) == 1 and not isinstance(defs[0].value, ast.Constant):
+                    new = facts_true(defs[0].value) if pol else facts_false(defs[0].value)
+                    new = [norm_atom(x, p) for x, p in new]
+                    out += new
+                    nxt += new
+                continue
+            if not (isinstance(a, ast.Call) and not a.keywords):
+                continue
+            callee = None
+            f = a.func
+            if isinstance(f, ast.Name):
+                tgt = m.lookup_target(m.resolve_dotted(fa.fi.module, fa.fi, f.id))
+                callee = tgt if isinstance(tgt, FuncInfo) else None
+                skip = 0
+            elif isinstance(f, ast.Attribute) and isinstance(f.value, ast.Name) and fa.fi.cls is not None and fa.fi.pos_params and f.value.id == fa.fi.pos_params[0]:
+                callee = m.find_method(fa.fi.cls, f.attr)
+                skip = 0 if (callee is not None and "staticmethod" in callee.decorators) else 1
+            if callee is None or callee is fa.fi or len(callee.node.body) > 12:
+                continue
+            paths = _predicate_body(callee)
+            if paths is None:
+                continue
+            params = callee.pos_params[skip:]
+            if len(params) != len(a.args):
+                continue
+            mapping = dict(zip(params, a.args))
+            truthy = [(c, r) for c, r in paths if not (isinstance(r, ast.Constant) and not r.value)]
+            falsy = [(c, r) for c, r in paths if not (isinstance(r, ast.Constant) and r.value)]
+            chosen = None
+            if pol and len(truthy) == 1:
+                c, r = truthy[0]
+                chosen = list(c) + ([] if isinstance(r, ast.Constant) else facts_true(r))
+            elif (not pol) and len(falsy) == 1:
+                c, r = falsy[0]
+                chosen = list(c) + ([] if isinstance(r, ast.Constant) else facts_false(r))
+            if chosen is None:
+                continue
+            import copy as _copy
+
+            new = []
+            for x, p in chosen:
+                x2 = _Subst({k: clone_ast(v) for k, v in mapping.items()}).visit(clone_ast(x))
+                # keep the substituted expression attached to the call's position for term evaluation
+                for sub in ast.walk(x2):
+                    if not hasattr(sub, "_parent"):
+                        pass
+                _attach(x2, a)
+                new.append(norm_atom(x2, p))
+            out += new
+            nxt += new
+        work = nxt
+        depth -= 1
+    return out
+
+
+def _attach(new: ast.AST, anchor: ast.AST) -> None:
+    """give a synthesised expression the parent of `anchor` so that term_of can locate its CFG node."""
+    from .model import parent as _parent
+
+    p = _parent(anchor)
+    new._parent = p  # type: ignore
+    for n in ast.walk(new):
+        for c in ast.iter_child_nodes(n):
+            if getattr(c, "_parent", None) is None or True:
+                try:
+                    c._parent = n  # type: ignore
+                except Exception:
+                    pass
+    new._parent = p  # type: ignore
+
+
+def _own(fi: FuncInfo):
+    return own_nodes(fi)
+
+
 def match_isinstance(fx: ast.AST) -> Optional[Tuple[ast.AST, List[ast.AST], bool]]:
     """isinstance(x, C) | isinstance(x, (C1, C2)) | type(x) is C | type(x) == C  ->  (x, [C..], exact)"""
     if isinstance(fx, ast.Call) and isinstance(fx.func, ast.Name) and fx.func.id == "isinstance" and len(fx.args) == 2:
@@ -204,3 +368,31 @@ def walk_terms(t: Any) -> Iterator[Term]:
     for s in subterms(t):
         if isinstance(s, tuple) and s and isinstance(s[0], str):
             yield s
+
+
+def attrs_in_call_closure(model: Model, fi: FuncInfo, wanted: Sequence[str], depth: int = 2) -> Set[str]:
+    """attribute names from `wanted` read in fi or in package functions / methods it calls (to `depth`)."""
+    out: Set[str] = set()
+    seen: Set[str] = set()
+
+    def go(f: FuncInfo, d: int):
+        if f.qual in seen:
+            return
+        seen.add(f.qual)
+        for n in own_nodes(f):
+            if isinstance(n, ast.Attribute) and n.attr in wanted:
+                out.add(n.attr)
+        if d <= 0:
+            return
+        for c in calls_in(f):
+            g = None
+            if isinstance(c.func, ast.Name):
+                tgt = model.lookup_target(model.resolve_dotted(f.module, f, c.func.id))
+                g = tgt if isinstance(tgt, FuncInfo) else None
+            elif isinstance(c.func, ast.Attribute) and isinstance(c.func.value, ast.Name) and f.cls is not None and f.pos_params and c.func.value.id == f.pos_params[0]:
+                g = model.find_method(f.cls, c.func.attr)
+            if g is not None:
+                go(g, d - 1)
+
+    go(fi, depth)
+    return out
